@@ -4,15 +4,20 @@
 (* non-contiguous {2}, {3}, {1,3}, {2,3}), and the output path being a symbolic link to a regular file      *)
 (* with backups {}, {1}, {2}, {1,3}                                                                          *)
 EXTENDS Output
-MCVariants == { [prog |-> "gen_params", on |-> {}], [prog |-> "gen_params", on |-> {"dsdna"}],
-                [prog |-> "gen_coords", on |-> {}], [prog |-> "gen_coords", on |-> {"split", "coords", "grid"}],
-                [prog |-> "gen_seq", on |-> {}],    [prog |-> "gen_seq", on |-> {"macro_file"}] }
+MCBase == { [prog |-> "gen_params", on |-> {}], [prog |-> "gen_params", on |-> {"dsdna"}],
+            [prog |-> "gen_coords", on |-> {}], [prog |-> "gen_coords", on |-> {"split", "coords", "grid"}],
+            [prog |-> "gen_seq", on |-> {}],    [prog |-> "gen_seq", on |-> {"macro_file"}] }
+MCRoutes == {"plain", "symdir", "dots", "abs"}
+MCVariants == { [prog |-> b.prog, on |-> b.on, route |-> r] : b \in MCBase, r \in MCRoutes }
+\* non-plain spellings of the output path: fresh output, existing output, existing output + one backup
+MCRouteInits == { [out |-> FALSE, bk |-> {}, link |-> FALSE], [out |-> TRUE, bk |-> {}, link |-> FALSE],
+                  [out |-> TRUE, bk |-> {1}, link |-> FALSE] }
 MCInits == [out : BOOLEAN, bk : SUBSET {1, 2, 3}, link : {FALSE}]
            \cup [out : {TRUE}, bk : {{}, {1}, {2}, {1, 3}}, link : {TRUE}]
 MCTargets1 == {"out"}
 MCNone == {}
 (* history extension: deferred-writer programs, first run fails (mostly inside serialisation), second run in the same process *)
-HVariants == { [prog |-> "gen_params", on |-> {}], [prog |-> "gen_coords", on |-> {}] }
+HVariants == { [prog |-> "gen_params", on |-> {}, route |-> "plain"], [prog |-> "gen_coords", on |-> {}, route |-> "plain"] }
 HInits == { [out |-> FALSE, bk |-> {}, link |-> FALSE], [out |-> TRUE, bk |-> {}, link |-> FALSE],
             [out |-> TRUE, bk |-> {1}, link |-> FALSE] }
 HCrash1 == { [stage |-> "links", when |-> "before"], [stage |-> "backmap", when |-> "after"],
